@@ -97,7 +97,9 @@ var ExtraSink atomic.Value // func(point string, kv ...any)
 func init() {
 	// hooks tick the global clock, so in-flight internal work is never mistaken for idleness
 	verifhook.SetEventSink(func(point string, kv ...any) {
-		Tick()
+		if point != "tq.tick" { // timer rounds of idle workers are not progress
+			Tick()
+		}
 		switch point {
 		case "mq.startup":
 			// counted from Startup(), not from the first instruction of the run loop: a goroutine that
